@@ -416,6 +416,13 @@ def oracle(case, impl):
         o, a = w[0], w[1:]
         st = parse_show(obs)
         err = obs.startswith("err ")
+        if obs.startswith("err ViewDisagreement"):
+            # the adapter's own checks: batch vs single run of a sub-command, an earlier result that changed, two views
+            what = obs[21:].replace("_", " ")
+            kindv = "batch" if what.startswith("batch") else ("history" if "stored sketch changed" in what else "views")
+            bad.append((idx, f"C04:{kindv}:{o if o != 'd' else 'd.' + a[0]}",
+                        f"after `{op[:80]}` the implementation disagrees with itself: {what}"))
+            continue
         if obs == "bad-op" or obs == "ok skipped" and o != "t.cli":
             continue
         try:
